@@ -184,6 +184,11 @@ def run(rep):
     for cnds, tup in alts:
         fld, acc, nod, fd = tup[1]
         if not (pq.call_named(fld, "attr:data") and pq.call_named(acc, "attr:data") and pq.call_named(fd, "attr:data") and fd[2][0] == ('sym', 'flowdir')):
+            if pq.call_named(fld, "attr:data") and not pq.call_named(acc, "attr:data") and pq.mentions(acc, lambda x: pq.call_named(x, "attr:data")):
+                # the kernel accumulates into a bare array derived from a grid's data, not into the data of the grid that is returned
+                okclone = False
+                det = f"accumulated buffer := {show(acc)[:100]} (not the data of a cloned grid: the result reaches the returned grid through the clipping data setter)"
+                continue
             rep.undecided("R11.b", "gis/grid.py", "accumulate", "arguments of the kernel call", f"buffers are not `.data` of grids: {show(acc)[:100]}", line=st.call.lineno)
             return EXPLANATION
         FIELD = fld[2][0]
